@@ -648,7 +648,14 @@ def _io_tools(pkg):
     from sa.pyinterp import PyInterp, Obj
     mod = pkg.module(MOD)
     funcs = {st.name: st for st in mod.tree.body if isinstance(st, ast.FunctionDef)}
-    classes = {st.name: st for st in mod.tree.body if isinstance(st, ast.ClassDef)}
+    mods = [mod]
+    try:
+        mods.append(pkg.module("_textgrid"))  # the vendored TextGrid reader (plain classes over `re`)
+    except Exception:
+        pass
+    classes = {st.name: st for m_ in mods for st in m_.tree.body if isinstance(st, ast.ClassDef)}
+    globs = {st.targets[0].id: st.value for m_ in reversed(mods) for st in m_.tree.body
+             if isinstance(st, ast.Assign) and len(st.targets) == 1 and isinstance(st.targets[0], ast.Name)}
 
     def interp():
         holder = {}
@@ -667,7 +674,7 @@ def _io_tools(pkg):
                     v = holder["it"].eval(e.args[0], env)
                     return ("real",) if isinstance(v, (int, float)) and not isinstance(v, bool) else ()
             return None
-        it = PyInterp(leaf=leaf, lookup=lookup, classes=classes)
+        it = PyInterp(leaf=leaf, lookup=lookup, classes=classes, module_globals=globs)
         holder["it"] = it
         return it
 
@@ -758,6 +765,55 @@ def _round_trip_tables(ctx: Ctx):
                    f"once with its tokens ordered by start time and the times as written; the file was {text!r}", rel, wc.lineno, sample=dict(utterances=len(tc)))
         except NotEvaluable:
             pass
+    # ---- TextGrid
+    from sa.pyinterp import LineStream
+    wt, rtg = funcs.get("write_textgrid"), funcs.get("read_textgrid")
+    if wt is None or rtg is None:
+        raise AnalysisError("C11: write_textgrid / read_textgrid not found")
+    wn, rn = [a.arg for a in wt.args.args], [a.arg for a in rtg.args.args]
+    intervals = [("b", 1.5, 2.2504), ("a", 0.25, 1.0), ("c", 2.2504, 3.0)]
+    points = [("p", 0.5, 0.5), ("q", 2.0, 2.0)]
+    tg_cases = [("intervals", intervals, 3, fill_, tier_) for fill_ in (None, "sil", "") for tier_ in (0, "words")] \
+        + [("intervals", intervals, 1, "sil", 0), ("points", points, 3, None, 0), ("points", points, 3, "sil", "words")]
+    tbad, tn = None, 0
+    try:
+        for tag, tr, prec, fill_, tier_ in tg_cases:
+            args = {wn[0]: tr}
+            for n_ in wn[2:]:
+                if "prec" in n_:
+                    args[n_] = prec
+                elif "name" in n_:
+                    args[n_] = "words"
+                else:
+                    args[n_] = None
+            text, err = written(wt, args)
+            got = None
+            if err is None:
+                kind, got = interp().run(rtg, dict(zip(rn, (LineStream(lines_of(text)), tier_, fill_))))
+                if kind != "return":
+                    err, got = f"read_textgrid raises {got}", None
+            tn += 1
+            rnd = lambda v_: float(f"{v_:0.{prec}f}")  # noqa: E731
+            base = sorted(((t_, rnd(s_), rnd(e_)) for t_, s_, e_ in tr), key=lambda z: z[1])
+            want = []
+            cur = base[0][1]
+            for t_, s_, e_ in base:
+                if fill_ is not None and cur < s_:
+                    want.append((fill_, cur, s_))
+                want.append((t_, s_, e_))
+                cur = e_
+            xmin, xmax = base[0][1], max(z[2] for z in base)
+            ok = err is None and isinstance(got, tuple) and len(got) == 3 and list(got[0]) == want and got[1] == xmin and got[2] == xmax
+            if not ok and tbad is None:
+                tbad = (tag, tr, prec, fill_, tier_, err or got, (want, xmin, xmax), text)
+    except NotEvaluable:
+        tbad = "skip"
+    if tbad != "skip":
+        col.count("textgrid_round_trip_cases", tn)
+        col.ob("G12", "S12", f"{rel}::write_textgrid->read_textgrid::round-trip-table", tbad is None,
+               (f"writing the {tbad[0]} {tbad[1]} at precision {tbad[2]} and reading tier {tbad[4]!r} back with fill_token={tbad[3]!r} gives {tbad[5]}; expected "
+                f"{tbad[6]} (entries ordered by start, times to the print precision, gaps between entries filled iff a fill token - the empty label included - "
+                f"is given); the file was {tbad[7]!r}") if tbad else "", rel, wt.lineno, sample=dict(cases=tn))
 
 
 def _mutants():
